@@ -38,13 +38,14 @@ static Outcome exec(const Case &c, const HCfg &h, Fault f, bool with_recovery) {
     Outcome o;
     World w;
     HCfg hh = h;
-    uint32_t getter_mask = f.kind == 5 ? (uint32_t)f.arg : 0;
+    uint32_t getter_mask = (f.kind == 5 || f.kind == 8) ? (uint32_t)f.arg : f.kind == 9 ? (uint32_t)VF_MTU : 0;
     uint32_t nth_bit = f.kind == 6 ? (1u << ((f.arg >> 8) & 15)) : 0;
     hh.fail = 0;
     hh.apply_global(w);
     IfCfg ic = hh.ifcfg();
     int P = w.add_if(ic), F = w.add_if(ic);
     w.ctx(P)->fail = getter_mask & 0xFFFF;
+    w.ctx(P)->fail_style = f.kind == 8 ? 1 : f.kind == 9 ? 2 : 0;   // 8: the failing getters scribble over their output before they report the error; 9: the MTU getter "succeeds" with 0
     if (nth_bit) { w.ctx(P)->fail_nth_mask = nth_bit; w.ctx(P)->fail_nth = (long)(f.arg & 0xFF); getter_mask_for_checks(nth_bit); }
     vp_global()->fail = getter_mask & 0xFFFF0000u;
     Mac own = h.ownmac();
@@ -69,7 +70,7 @@ static Outcome exec(const Case &c, const HCfg &h, Fault f, bool with_recovery) {
         std::vector<Ev> evs = w.deliver(P, b.frame);
         if (o.first_hit < 0 && (vp_alloc_failed() + vp_send_refused() > hits_before || (((w.ctx(P)->calls_mask | vp_global()->calls_mask) & ~calls_before) & getter_mask) ||
                                 (nth_bit && w.ctx(P)->fail_nth == 0))) o.first_hit = (long)i;
-        if (o.first_hit == (long)i || (o.first_hit >= 0 && (f.kind == 2 || f.kind == 4 || f.kind == 5 || f.kind == 7))) o.faulted_steps.insert(i);
+        if (o.first_hit == (long)i || (o.first_hit >= 0 && (f.kind == 2 || f.kind == 4 || f.kind == 5 || f.kind == 7 || f.kind == 8 || f.kind == 9))) o.faulted_steps.insert(i);
         o.frames.resize(i + 1); o.frames[i] = b.frame; o.frames[i].resize(h.mtu, 0);
         o.stations.resize(i + 1, -1); o.stations[i] = b.station;
         shadow_update_sem(sh, frame_sem(b.frame), b);
@@ -228,7 +229,7 @@ static Verdict run(const Case &c) {
             else if (sem == SEM_COMMAND) mm.possible.insert(st);   // a command may open a session, and whether a stranger's command takes the role over is left open by C05
         }
     }
-    bool hit = f.kind == 6 ? o.first_hit >= 0 : (f.kind == 1 || f.kind == 2) ? o.alloc_failed > 0 : (f.kind == 3 || f.kind == 4) ? o.refused > 0 : f.kind == 7 ? (o.alloc_failed > 0 && o.refused > 0) : f.kind == 5 ? (o.getter_calls & (uint32_t)f.arg) != 0 : false;
+    bool hit = f.kind == 6 ? o.first_hit >= 0 : (f.kind == 1 || f.kind == 2) ? o.alloc_failed > 0 : (f.kind == 3 || f.kind == 4) ? o.refused > 0 : f.kind == 7 ? (o.alloc_failed > 0 && o.refused > 0) : (f.kind == 5 || f.kind == 8) ? (o.getter_calls & (uint32_t)f.arg) != 0 : f.kind == 9 ? (o.getter_calls & VF_MTU) != 0 : false;
     v.nontrivial = hit && total_free >= 1;
     v.cls(fmt("fault-kind-%d", f.kind));
     if (hit) v.cls("fault-hit");
@@ -253,6 +254,12 @@ static std::vector<Case> corpus() {
     add(base(0, 1500), {disc, mk(K_QLT, {-1, 7, 0x11, 0, 0}), mk(K_QLT, {-1, 8, 0x13, 0, 0}), mk(K_QLT, {-1, 9, 0x77, 0, 0})});
     add(base(1, 1500), {qdisc, mk(K_QLT, {-1, 7, 0x0E, 0, 1}), mk(K_RESET, {0, 1, 1}), qdisc});
     add(base(0, 1500), {disc, mk(K_PROBE, {1, 0, 1, 0}), mk(K_EMIT, {-1, 5, -1}, d3), mk(K_QUERY, {-1, 6}), mk(K_QLT, {-1, 7, 0x0E, 0, 0}), mk(K_RESET, {0, 0, 1}), disc, mk(K_QUERY, {-1, 9})});
+    {   // more observations than one QueryResp holds (27 at MTU 576): the report that says "more remain", its continuation, and a further Query
+        std::vector<Op> v = {disc};
+        for (int i = 0; i < 30; i++) v.push_back(mk(K_PROBE, {10 + i, i % 3, i & 1, 0}));
+        v.push_back(mk(K_QUERY, {-1, 6})); v.push_back(mk(K_QUERY, {-1, 7})); v.push_back(mk(K_QUERY, {-1, 8}));
+        add(base(0, 576), v);
+    }
     Op disc1 = mk(K_DISCOVER, {1, 0, 2, 3, 0, 0, -1});
     add(base(0, 1500), {disc, disc, disc1, mk(K_QUERY, {-1, 4}), disc, disc1});                       // a second station knocks while the first is the mapper
     add(base(1, 600), {disc, mk(K_QLT, {-1, 7, 0x0E, 0, 0}), mk(K_QLT, {-1, 8, 0x0E, 566, 0})});    // multi-frame icon at a non-1500 MTU
@@ -268,7 +275,7 @@ int main(int argc, char **argv) {
     Evidence ev;
     ev.level_hint = "fault_enumeration";
     ev.rule = "scenario corpus (one per request type + compound ones; thorough adds rapidcheck-generated scenarios) x every fault point: fail exactly the k-th allocation for every k up to the scenario's allocation count, "
-              "fail every allocation from the k-th on, refuse the k-th transmit for every k and refuse all, the k-th allocation failing while every transmit is refused, every single failing getter, all pairs and random subsets, the k-th call of each per-interface getter failing once; constructors with the 1st/2nd/... allocation failing, alone and next to a complete set of objects that is already in use. "
+              "fail every allocation from the k-th on, refuse the k-th transmit for every k and refuse all, the k-th allocation failing while every transmit is refused, every single failing getter (leaving its output untouched, or scribbling over it first; the MTU getter also 'succeeding' with 0), all pairs and random subsets, the k-th call of each per-interface getter failing once; constructors with the 1st/2nd/... allocation failing, alone and next to a complete set of objects that is already in use. "
               "Oracle: no sanitizer/ledger report, frames sent under the fault well-formed and not more than fault-free, after the fault clears + Reset exactly one block per interface and a fixed continuation byte-identical to a fresh instance. "
               "non-trivial = the injected fault was actually hit and the fault-free run transmits >= 1 frame; distinct = (scenario, fault)";
     bool ok = true;
@@ -295,6 +302,8 @@ int main(int argc, char **argv) {
         { Case c = sc; c.cfg[8] = 4; try_case(c, "c18-send-always"); }
         for (uint64_t k = 1; k <= fr.allocs + 1; k++) { Case c = sc; c.cfg[8] = 7; c.cfg[9] = (int64_t)k; try_case(c, "c18-alloc-kth-while-no-transmit-succeeds"); }
         for (int i = 0; i < NG; i++) { Case c = sc; c.cfg[8] = 5; c.cfg[9] = getters[i]; try_case(c, "c18-getter-single"); }
+        for (int i = 0; i < 6; i++) { Case c = sc; c.cfg[8] = 8; c.cfg[9] = getters[i]; try_case(c, "c18-getter-fails-after-writing-its-output"); }
+        { Case c = sc; c.cfg[8] = 9; try_case(c, "c18-mtu-getter-reports-0"); }
         for (int bit = 0; bit < 11; bit++)   // the k-th call of one per-interface getter fails once (a getter that fails on one of two lookups of the same request)
             for (uint32_t k = 1; k <= std::min<uint32_t>(fr.getter_calls_per_bit[bit], 8); k++) { Case c = sc; c.cfg[8] = 6; c.cfg[9] = bit * 256 + (int64_t)k; try_case(c, "c18-getter-kth-call"); }
         for (int i = 0; i < NG; i++) for (int j = i + 1; j < NG; j++) { Case c = sc; c.cfg[8] = 5; c.cfg[9] = getters[i] | getters[j]; try_case(c, "c18-getter-pair"); }
@@ -309,9 +318,9 @@ int main(int argc, char **argv) {
             Case c; h.to_case(c);
             c.ops = *hg::ops_gen(w, 1, 25);
             c.cfg.resize(11, 0);
-            int kind = *gx::range<int>(1, 7);
+            int kind = *gx::range<int>(1, 9);
             c.cfg[8] = kind;
-            if (kind == 5) { int64_t m = 0; int n = *gx::range<int>(1, 6); for (int i = 0; i < n; i++) m |= getters[*gx::range<int>(0, NG - 1)]; c.cfg[9] = m; }
+            if (kind == 5 || kind == 8) { int64_t m = 0; int n = *gx::range<int>(1, 6); for (int i = 0; i < n; i++) m |= getters[*gx::range<int>(0, NG - 1)]; c.cfg[9] = m; }
             else if (kind == 6) c.cfg[9] = *gx::pick({0, 1, 0, 0, 2, 3, 4, 5}) * 256 + *gx::range<int64_t>(1, 6);
             else c.cfg[9] = *gx::bnd({1, 2, 3}, 1, 40, 1, 2);
             return c;
